@@ -25,3 +25,26 @@ Definition sx_res {A} (f : A -> sx) (r : res A) : sx :=
   end.
 
 Definition badcase : sx := SL [SB sym_badcase].
+
+(* Structural equality on sx (used by the in-kernel cross-check of extraction). *)
+Fixpoint sx_eqb (a b : sx) : bool :=
+  match a, b with
+  | SI x, SI y => Z.eqb x y
+  | SB x, SB y => bytes_eqb x y
+  | SL x, SL y =>
+      (fix go (l1 l2 : list sx) : bool :=
+         match l1, l2 with
+         | [], [] => true
+         | u :: t1, v :: t2 => sx_eqb u v && go t1 t2
+         | _, _ => false
+         end) x y
+  | _, _ => false
+  end.
+
+(* indices of the cases on which run differs from the expected result *)
+Fixpoint mismatches_from (run : bytes -> sx -> sx) (cases : list (bytes * sx * sx)) (i : nat) : list nat :=
+  match cases with
+  | [] => []
+  | (k, a, e) :: t =>
+      (if sx_eqb (run k a) e then [] else [i]) ++ mismatches_from run t (S i)
+  end.
